@@ -1,34 +1,14 @@
-(* Proofs.ExprClean — C02_partial: on the clean fragment the whole pipeline (render, tokens_to_tokens,
-   expression_to_tree, tree_to_operations, optimize_const, lowering) followed by MC.Sem execution
-   stores the value of the expression in the target, changes no other user variable, fires no tag. *)
+(* Proofs.ExprClean — C02_partial: on the arithmetic fragment (every tree of + - * / % over variables,
+   the target included, any parenthesisation) and for all six assignment forms, the whole pipeline
+   (render, tokens_to_tokens, expression_to_tree, search_for_output_in_tree, tree_to_operations,
+   optimize_const, lowering) followed by MC.Sem execution stores `target <form> value-of-e`, computed
+   from the scores BEFORE the statement, in the target, changes no other user variable, fires no tag. *)
 From Coq Require Import ZArith String List Bool Lia Ascii.
 From JMCV Require Import Base.Int32 Base.Dec MC.Syntax MC.Sem MC.Facts Model.Names Model.VarOp Proofs.VarOp
      Model.Expr Model.ExprSpec Model.ExprFront Model.ExprBack
-     Proofs.ExprLower Proofs.ExprParse Proofs.ExprOps.
+     Proofs.ExprLower Proofs.ExprParse Proofs.ExprOps Proofs.ExprOpt.
 Import ListNotations.
 Open Scope Z_scope.
-
-(* ------------------------------------------------------------------ the fragment *)
-Definition is_par (e : expr) : bool := match e with EPar _ => true | _ => false end.
-
-(* a variable other than the target, or a parenthesised operation (+ - * / %) of such operands —
-   except `( … ) - ( … )`, which the compiler rewrites with a constant *)
-Fixpoint clean_atom (nm : names) (out : score) (e : expr) : bool :=
-  match e with
-  | EVar v => negb (score_eqb (score_of nm v) out)
-  | EPar (EBin o a b) =>
-      arith_op o && clean_atom nm out a && clean_atom nm out b
-      && negb (match o with BSub => is_par a && is_par b | _ => false end)
-  | _ => false
-  end.
-Definition clean_bin (nm : names) (out : score) (e : expr) : bool :=
-  match e with
-  | EBin o a b =>
-      arith_op o && clean_atom nm out a && clean_atom nm out b
-      && negb (match o with BSub => is_par a && is_par b | _ => false end)
-  | _ => false
-  end.
-Definition clean (nm : names) (out : score) (e : expr) : bool := clean_atom nm out e || clean_bin nm out e.
 
 Fixpoint evars (nm : names) (e : expr) : list score :=
   match e with
@@ -37,48 +17,6 @@ Fixpoint evars (nm : names) (e : expr) : list score :=
   | ENeg e | EPar e => evars nm e
   | EBin _ a b => evars nm a ++ evars nm b
   end.
-
-(* ------------------------------------------------------------------ optimize_const on constant-free lists *)
-Definition const_free (l : list oper2) : bool := forallb (fun o => negb (is_cconst (o_num o))) l.
-
-Lemma split_const_free l : const_free l = true -> split_const l = (l, None).
-Proof.
-  induction l as [|[[v o] n] r IH]; cbn [const_free forallb split_const]; [reflexivity|].
-  intros H. apply andb_true_iff in H. destruct H as [Hn Hr]. destruct n as [z|s]; [discriminate|].
-  rewrite (IH Hr). reflexivity.
-Qed.
-Lemma flush_mid_free l : const_free l = true -> flush_mid l = (Ok l, []).
-Proof. intros H. unfold flush_mid. now rewrite split_const_free. Qed.
-Lemma flush_final_free l : const_free l = true -> flush_final l = (Ok l, []).
-Proof. intros H. unfold flush_final. now rewrite split_const_free. Qed.
-
-Lemma const_free_app a b : const_free (a ++ b) = const_free a && const_free b.
-Proof. apply forallb_app. Qed.
-
-Lemma opt_loop_free l : forall temp acc,
-  const_free temp = true -> const_free l = true ->
-  opt_loop l temp acc = (Ok (acc ++ temp ++ l), []).
-Proof.
-  induction l as [|[[var op] n] r IH]; intros temp acc Ht Hl.
-  - cbn [opt_loop]. destruct temp as [|t0 rest].
-    + now rewrite app_nil_r.
-    + rewrite flush_final_free by exact Ht. rewrite bind_ok_nil. now rewrite app_nil_r.
-  - cbn [opt_loop]. cbn [const_free forallb] in Hl. apply andb_true_iff in Hl. destruct Hl as [Hn Hr].
-    destruct temp as [|t0 rest].
-    + rewrite IH; [reflexivity| |exact Hr]. cbn [const_free forallb]. now rewrite Hn.
-    + assert (Ht0 : negb (is_cconst (o_num t0)) = true).
-      { cbn [const_free forallb] in Ht. now apply andb_true_iff in Ht. }
-      destruct (score_eqb var (o_var t0) && (is_same_group op (o_op (last (t0 :: rest) t0))
-                  || Nat.eqb (length (t0 :: rest)) 1 && opc_eqb (o_op t0) PEmpty)).
-      * rewrite Ht0. rewrite !orb_true_r. cbn [orb].
-        rewrite IH; [now rewrite <- !app_assoc| |exact Hr].
-        rewrite const_free_app, Ht. cbn [const_free forallb]. now rewrite Hn.
-      * rewrite flush_mid_free by exact Ht. rewrite bind_ok_nil.
-        rewrite IH; [now rewrite <- !app_assoc| |exact Hr]. cbn [const_free forallb]. now rewrite Hn.
-Qed.
-
-Lemma optimize_const_free l : const_free l = true -> optimize_const l = (Ok l, []).
-Proof. intros H. unfold optimize_const. now rewrite opt_loop_free. Qed.
 
 (* ------------------------------------------------------------------ strings: temp names are injective *)
 Lemma append_length (a b : string) : String.length (a ++ b) = (String.length a + String.length b)%nat.
@@ -100,23 +38,39 @@ Proof.
   apply append_inv_tail in H. apply z_dec_inj in H. lia.
 Qed.
 
-(* ------------------------------------------------------------------ trees of clean expressions *)
-Lemma ctree_shape out t : ctree out t = true -> is_const t = false.
+(* ------------------------------------------------------------------ trees of arithmetic expressions *)
+Lemma gtree_not_const t : gtree t = true -> is_const t = false.
 Proof. destruct t; cbn; congruence. Qed.
 
-Lemma mk_expr_clean out o l r :
-  arith_opc o = true -> ctree out l = true -> ctree out r = true ->
-  (opc_eqb o PSub && is_expr l && is_expr r = false) ->
-  mk_expr o l r = NExpr o o l r \/ (mk_expr o l r = NExpr o o r l /\ (o = PAdd \/ o = PMul)).
-Proof.
-  intros Ho Hl Hr Hs. unfold mk_expr. rewrite (ctree_shape out l Hl). rewrite andb_false_r.
-  rewrite Hs.
-  destruct (is_reflective o && negb (is_expr l) && is_expr r) eqn:E; [|now left].
-  right. split; [reflexivity|]. destruct o; cbn in E, Ho; try discriminate; auto.
-Qed.
+Lemma op_sem_comm o a b : is_reflective o = true -> op_sem o a b = op_sem o b a.
+Proof. destruct o; cbn; try discriminate; intros _; f_equal; lia. Qed.
 
-Lemma op_sem_comm o a b : o = PAdd \/ o = PMul -> op_sem o a b = op_sem o b a.
-Proof. intros [->| ->]; cbn; f_equal; lia. Qed.
+Lemma mk_expr_gtree o l r :
+  arith_opc o = true -> gtree l = true -> gtree r = true ->
+  gtree (mk_expr o l r) = true /\
+  (forall f, teval f (mk_expr o l r) = op_sem o (teval f l) (teval f r)) /\
+  (forall s, In s (tvars (mk_expr o l r)) -> In s (tvars l) \/ In s (tvars r)) /\
+  is_expr (mk_expr o l r) = true.
+Proof.
+  intros Ho Hl Hr. unfold mk_expr. rewrite (gtree_not_const l Hl), andb_false_r. cbn [andb].
+  assert (Hoo : opc_eqb o o = true) by (destruct o; reflexivity).
+  destruct (is_reflective o && negb (is_expr l) && is_expr r) eqn:E1.
+  - apply andb_true_iff in E1. destruct E1 as [E1 _]. apply andb_true_iff in E1. destruct E1 as [Erf _].
+    repeat split.
+    + cbn [gtree]. now rewrite Hoo, Ho, Hr, Hl.
+    + intros f. cbn [teval]. now apply op_sem_comm.
+    + intros s Hs. cbn [tvars] in Hs. apply in_app_or in Hs. tauto.
+  - destruct (opc_eqb o PSub && is_expr l && is_expr r) eqn:E2.
+    + apply andb_true_iff in E2. destruct E2 as [E2 Er]. apply andb_true_iff in E2. destruct E2 as [Eo El].
+      assert (o = PSub) as -> by (destruct o; try discriminate; reflexivity).
+      repeat split.
+      * cbn [gtree opc_eqb arith_opc andb]. rewrite Hr, Hl, Er. reflexivity.
+      * intros f. cbn [teval op_sem]. wsimp.
+      * intros s Hs. cbn [tvars] in Hs. rewrite app_nil_r in Hs. apply in_app_or in Hs. tauto.
+    + repeat split.
+      * cbn [gtree]. now rewrite Hoo, Ho, Hl, Hr.
+      * intros s Hs. cbn [tvars] in Hs. apply in_app_or in Hs. tauto.
+Qed.
 
 Lemma binop_op_sem o a b v : arith_op o = true -> binop_sem o a b = Some v -> op_sem (opc_of o) a b = v.
 Proof.
@@ -131,86 +85,83 @@ Qed.
 Lemma arith_op_opc o : arith_op o = true -> arith_opc (opc_of o) = true.
 Proof. destruct o; cbn; congruence. Qed.
 
-Definition tree_facts (nm : names) (out : score) (e : expr) : Prop :=
-  ctree out (tree_of nm e) = true /\
+Lemma arith_tree nm e : arith e = true ->
+  gtree (tree_of nm e) = true /\
   (forall s, In s (tvars (tree_of nm e)) -> In s (evars nm e)) /\
   (forall f v, eval nm f e = Some v -> teval f (tree_of nm e) = v).
-
-Lemma bin_facts nm out o a b :
-  arith_op o = true ->
-  tree_facts nm out a -> tree_facts nm out b ->
-  is_expr (tree_of nm a) = is_par a -> is_expr (tree_of nm b) = is_par b ->
-  negb (match o with BSub => is_par a && is_par b | _ => false end) = true ->
-  tree_facts nm out (EBin o a b) /\ is_expr (tree_of nm (EBin o a b)) = true.
 Proof.
-  intros Ho (Ca & Va & Ea) (Cb & Vb & Eb) Ia Ib Hs.
-  assert (Hs' : opc_eqb (opc_of o) PSub && is_expr (tree_of nm a) && is_expr (tree_of nm b) = false).
-  { rewrite Ia, Ib. destruct o; cbn in *; try reflexivity. destruct (is_par a), (is_par b); cbn in *; congruence. }
-  unfold tree_facts. cbn [tree_of].
-  destruct (mk_expr_clean out (opc_of o) _ _ (arith_op_opc o Ho) Ca Cb Hs') as [E|[E Hc]]; rewrite E.
-  - split; [|reflexivity]. repeat split.
-    + cbn [ctree]. rewrite Ca, Cb, (arith_op_opc o Ho). destruct o; reflexivity.
-    + intros s Hin. cbn [tvars] in Hin. cbn [evars]. apply in_app_or in Hin. apply in_or_app.
-      destruct Hin; [left; now apply Va|right; now apply Vb].
-    + intros f v H. cbn [eval] in H. destruct (eval nm f a) as [x|] eqn:Ex; [|discriminate].
-      destruct (eval nm f b) as [y|] eqn:Ey; [|discriminate].
-      cbn [teval]. rewrite (Ea f x Ex), (Eb f y Ey). now apply binop_op_sem.
-  - split; [|reflexivity]. repeat split.
-    + cbn [ctree]. rewrite Ca, Cb, (arith_op_opc o Ho). destruct o; reflexivity.
-    + intros s Hin. cbn [tvars] in Hin. cbn [evars]. apply in_app_or in Hin. apply in_or_app.
-      destruct Hin; [right; now apply Vb|left; now apply Va].
-    + intros f v H. cbn [eval] in H. destruct (eval nm f a) as [x|] eqn:Ex; [|discriminate].
-      destruct (eval nm f b) as [y|] eqn:Ey; [|discriminate].
-      cbn [teval]. rewrite (Ea f x Ex), (Eb f y Ey). rewrite op_sem_comm by exact Hc.
-      now apply binop_op_sem.
-Qed.
-
-Lemma clean_both nm out e :
-  (clean_atom nm out e = true ->
-     pn_atom e = true /\ tree_facts nm out e /\ is_expr (tree_of nm e) = is_par e) /\
-  (clean_bin nm out e = true ->
-     pn_bin e = true /\ tree_facts nm out e /\ is_expr (tree_of nm e) = true).
-Proof.
-  induction e as [v|z|e IH|e IH|o a IHa b IHb]; split; try (cbn; discriminate).
-  - cbn [clean_atom]. intros H. split; [reflexivity|]. split; [|reflexivity].
-    repeat split.
-    + exact H.
+  induction e as [v|z|e IH|e IH|o a IHa b IHb]; cbn [arith]; try discriminate.
+  - intros _. repeat split.
     + intros s Hs. exact Hs.
     + intros f x Hx. cbn in Hx. injection Hx as <-. reflexivity.
-  - intros H. destruct e as [| | | |o a b]; try (cbn in H; discriminate).
-    destruct IH as [_ IH]. destruct (IH H) as (P & T & I).
-    split; [exact P|]. split; [|exact I].
-    destruct T as (C & V & E). repeat split; [exact C|exact V|exact E].
-  - cbn [clean_bin]. intros H.
-    apply andb_true_iff in H. destruct H as [H Hs]. apply andb_true_iff in H. destruct H as [H Hb].
-    apply andb_true_iff in H. destruct H as [Ho Ha].
-    destruct IHa as [IHa _], IHb as [IHb _].
-    destruct (IHa Ha) as (Pa & Ta & Ia). destruct (IHb Hb) as (Pb & Tb & Ib).
-    split; [cbn [pn_bin]; now rewrite Ho, Pa, Pb|].
-    now apply bin_facts.
+  - intros H. exact (IH H).
+  - intros H. apply andb_true_iff in H. destruct H as [H Hb]. apply andb_true_iff in H. destruct H as [Ho Ha].
+    destruct (IHa Ha) as (Ga & Va & Ea). destruct (IHb Hb) as (Gb & Vb & Eb).
+    cbn [tree_of evars].
+    destruct (mk_expr_gtree (opc_of o) _ _ (arith_op_opc o Ho) Ga Gb) as (G & T & V & _).
+    repeat split.
+    + exact G.
+    + intros s Hs. apply in_or_app. destruct (V s Hs); [left; now apply Va|right; now apply Vb].
+    + intros f v H. cbn [eval] in H. destruct (eval nm f a) as [x|] eqn:Ex; [|discriminate].
+      destruct (eval nm f b) as [y|] eqn:Ey; [|discriminate].
+      rewrite T, (Ea f x Ex), (Eb f y Ey). now apply binop_op_sem.
 Qed.
 
-Lemma clean_pn nm out e : clean nm out e = true -> pn e = true.
+(* ------------------------------------------------------------------ search_for_output_in_tree *)
+Lemma spine_is_expr out t : spine out t = true -> is_expr t = true.
+Proof. destruct t; cbn; congruence. Qed.
+
+Lemma cnum_count out r : cnum r = true -> count_out out r = O.
+Proof. destruct r; cbn; congruence. Qed.
+
+Lemma swap_path_spine out t :
+  gtree t = true -> count_out out t = 1%nat -> forall t', swap_path out t = Some t' ->
+  ((t = NVar out /\ t' = NVar out) \/ spine out t' = true) /\
+  (forall f, teval f t' = teval f t) /\
+  (forall s, In s (tvars t') -> In s (tvars t)).
 Proof.
-  unfold clean, pn. intros H. apply orb_true_iff in H. apply orb_true_iff. destruct H as [H|H].
-  - left. now apply (proj1 (clean_both nm out e)).
-  - right. now apply (proj2 (clean_both nm out e)).
-Qed.
-Lemma clean_facts nm out e : clean nm out e = true -> tree_facts nm out e.
-Proof.
-  unfold clean. intros H. apply orb_true_iff in H. destruct H as [H|H].
-  - now apply (proj1 (clean_both nm out e)).
-  - now apply (proj2 (clean_both nm out e)).
+  induction t as [z|s|i|c o l IHl r IHr]; cbn [gtree]; try discriminate.
+  - intros _ Hc t' [= <-]. cbn [count_out] in Hc.
+    destruct (score_eqb_spec s out) as [E|]; [subst s|discriminate].
+    split; [left; split; reflexivity|]. split; [reflexivity|auto].
+  - intros Hg Hc t' Hsw.
+    apply andb_true_iff in Hg. destruct Hg as [Hg Hgr]. apply andb_true_iff in Hg. destruct Hg as [Hg Hgl].
+    apply andb_true_iff in Hg. destruct Hg as [Hco Har].
+    cbn [count_out] in Hc. cbn [swap_path] in Hsw.
+    destruct (Nat.ltb 0 (count_out out l)) eqn:El.
+    + apply Nat.ltb_lt in El. assert (Hcl : count_out out l = 1%nat) by lia. assert (Hcr : count_out out r = O) by lia.
+      destruct (swap_path out l) as [l'|] eqn:Esl; [|discriminate]. injection Hsw as <-.
+      destruct (IHl Hgl Hcl l' eq_refl) as (Hsp & Hte & Htv).
+      split; [right|split].
+      * cbn [spine]. rewrite Hco, Har, Hcr. cbn [Nat.eqb andb]. rewrite andb_true_r.
+        destruct Hsp as [[-> ->]|Hsp].
+        -- rewrite score_eqb_refl. cbn [andb]. cbn [is_expr andb orb] in Hgr. now rewrite orb_false_r in Hgr.
+        -- pose proof (spine_is_expr out l' Hsp) as Hex. destruct l'; try discriminate.
+           rewrite Hsp. cbn [andb].
+           destruct (gtree r); [reflexivity|]. cbn [orb] in Hgr |- *. now apply andb_true_iff in Hgr.
+      * intros f. cbn [teval]. now rewrite Hte.
+      * intros s Hs. cbn [tvars] in *. apply in_app_or in Hs. apply in_or_app. destruct Hs; [left; now apply Htv|now right].
+    + apply Nat.ltb_ge in El. assert (Hcl : count_out out l = O) by lia. assert (Hcr : count_out out r = 1%nat) by lia.
+      destruct (is_reflective o) eqn:Erf; [|discriminate].
+      destruct (swap_path out r) as [r'|] eqn:Esr; [|discriminate]. injection Hsw as <-.
+      assert (Gr : gtree r = true).
+      { destruct (gtree r); [reflexivity|]. cbn [orb] in Hgr. apply andb_true_iff in Hgr. destruct Hgr as [_ Hk].
+        rewrite (cnum_count out r Hk) in Hcr. discriminate. }
+      destruct (IHr Gr Hcr r' eq_refl) as (Hsp & Hte & Htv).
+      split; [right|split].
+      * cbn [spine]. rewrite Hco, Har, Hcl. cbn [Nat.eqb andb]. rewrite andb_true_r.
+        destruct Hsp as [[-> ->]|Hsp].
+        -- rewrite score_eqb_refl. cbn [andb]. exact Hgl.
+        -- pose proof (spine_is_expr out r' Hsp) as Hex. destruct r'; try discriminate.
+           rewrite Hsp, Hgl. reflexivity.
+      * intros f. cbn [teval]. rewrite Hte. now apply op_sem_comm.
+      * intros s Hs. cbn [tvars] in *. apply in_app_or in Hs. apply in_or_app. destruct Hs; [right; now apply Htv|now left].
 Qed.
 
 (* ------------------------------------------------------------------ tree_to_operations at the top *)
-Lemma ctree_count out t : ctree out t = true -> count_out out t = O.
-Proof.
-  induction t as [z|s|i|c o l IHl r IHr]; cbn [ctree count_out]; try discriminate.
-  - intros H. apply negb_true_iff in H. now rewrite H.
-  - intros H. apply andb_true_iff in H. destruct H as [H Hr]. apply andb_true_iff in H. destruct H as [_ Hl].
-    now rewrite IHl, IHr.
-Qed.
+Definition st0 : tstate := mkT [] O [] None.
+Lemma Inv_st0 : Inv st0.
+Proof. split; [constructor|intros k []]. Qed.
 
 Lemma rename_ops_shape nm out inj ov l :
   forallb op_shape l = true ->
@@ -223,182 +174,327 @@ Proof.
   destruct n; try discriminate; cbn [rename_num]; rewrite bind_ret_l, (IH Hr), bind_ok_nil; reflexivity.
 Qed.
 
-Definition st0 : tstate := mkT [] O [] None.
-Lemma Inv_st0 : Inv st0.
-Proof. split; [constructor|intros k []]. Qed.
+(* what the final theorem needs to know about an operation list *)
+Definition good_ops (nm : names) (out : score) (ops : list oper2) : Prop :=
+  (forall x, In x ops -> o_op x <> PPow) /\ consts32 ops /\
+  (forall x, In x ops -> o_var x = out \/ exists n, o_var x = temp_score nm n).
 
-Lemma tto_top nm out c o l r :
-  ctree out (NExpr c o l r) = true ->
-  exists new ov,
-    tree_to_operations nm (NExpr c o l r) out PEmpty =
-      (Ok (map (ren_op (rename_temp nm out true ov)) new), []) /\
-    (1 <= ov)%nat /\
-    sem_post (NExpr c o l r) (NTemp ov) st0 new /\ forallb op_shape new = true.
+Lemma rename_temp_cases nm out inj ov k :
+  rename_temp nm out inj ov k = out \/ exists n, rename_temp nm out inj ov k = temp_score nm n.
+Proof. unfold rename_temp. destruct (inj && Nat.eqb k ov); [now left|right; eauto]. Qed.
+
+Lemma good_ren nm out inj ov l :
+  forallb op_shape l = true -> good_ops nm out (map (ren_op (rename_temp nm out inj ov)) l).
 Proof.
-  intros Hc.
-  destruct (tto_clean out _ Hc true st0 Inv_st0) as (res & st' & new & E & O & I & M & F & R & S & Sh).
-  cbn [res_post] in R. destruct R as (ov & -> & Aov & _ & _ & Out).
-  exists new, ov. split; [|split; [exact (avail_ge1 _ _ Inv_st0 Aov)|split; assumption]].
-  unfold tree_to_operations. cbn [opc_eqb]. unfold search_for_output. rewrite (ctree_count _ _ Hc).
-  fold st0. rewrite E, bind_ok_nil. rewrite Out. rewrite O. cbn [st0 t_ops]. rewrite app_nil_r, rev_involutive.
-  rewrite bind_ret_l. cbn [tell_if]. rewrite bind_ret_l. cbn [orb].
-  rewrite (rename_ops_shape nm out true ov new Sh), bind_ok_nil. now rewrite app_nil_r.
+  intros H. assert (Hx : forall x, In x l -> op_shape x = true) by (apply forallb_forall; exact H).
+  split; [|split]; intros y Hy; apply in_map_iff in Hy; destruct Hy as ([[v o] n] & <- & Hin);
+    specialize (Hx _ Hin); unfold op_shape in Hx; cbn [fst snd] in Hx;
+    apply andb_true_iff in Hx; destruct Hx as [Hx Ho]; apply andb_true_iff in Hx; destruct Hx as [Hv Hn].
+  - unfold ren_op, o_op. cbn [fst snd]. intros ->. discriminate.
+  - unfold const32, ren_op, o_num. cbn [fst snd]. destruct n; cbn [ren_num]; try exact I.
+    + now apply in_int32b_spec.
+    + discriminate.
+  - destruct v; try discriminate. unfold ren_op, o_var. cbn [fst snd ren_var]. apply rename_temp_cases.
 Qed.
 
-(* the renaming used when the result is injected into the target *)
-Lemma rename_temp_ok nm out ov (vars : list score) :
-  (1 <= ov)%nat ->
-  (forall n, out <> temp_score nm n) ->
-  (forall s, In s vars -> s <> out /\ forall n, s <> temp_score nm n) ->
-  rho_ok (rename_temp nm out true ov) vars.
+Lemma good_app nm out a b : good_ops nm out a -> good_ops nm out b -> good_ops nm out (a ++ b).
 Proof.
-  intros Hov Hout Hvars. split.
-  - intros k k' Hk Hk'. unfold rename_temp. cbn [andb].
+  intros (A1 & A2 & A3) (B1 & B2 & B3). split; [|split].
+  - intros x Hx. apply in_app_or in Hx. destruct Hx; auto.
+  - apply consts32_app. now split.
+  - intros x Hx. apply in_app_or in Hx. destruct Hx; auto.
+Qed.
+
+Lemma tto_unfold nm c o l r out form :
+  tree_to_operations nm (NExpr c o l r) out form =
+  (let '(cj, t1) := if opc_eqb form PEmpty then search_for_output (NExpr c o l r) out else (false, NExpr c o l r) in
+   '(_, st) <- tto out cj t1 true st0 ;;
+   match t_out st with
+   | None => crash "AssertionError"
+   | Some ov =>
+       ops2 <- rename_ops nm out cj ov (rev (t_ops st)) ;;
+       ret (ops2 ++ (if cj then [] else [(out, form, CVar (rename_temp nm out cj ov ov))]))
+   end).
+Proof. reflexivity. Qed.
+
+Lemma tto_tail nm out form cj t1 res st' new ov :
+  tto out cj t1 true st0 = (Ok (res, st'), []) -> t_ops st' = rev new ++ t_ops st0 -> t_out st' = Some ov ->
+  forallb op_shape new = true ->
+  ('(_, st) <- tto out cj t1 true st0 ;;
+   match t_out st with
+   | None => crash "AssertionError"
+   | Some ov =>
+       ops2 <- rename_ops nm out cj ov (rev (t_ops st)) ;;
+       ret (ops2 ++ (if cj then [] else [(out, form, CVar (rename_temp nm out cj ov ov))]))
+   end) =
+  (Ok (map (ren_op (rename_temp nm out cj ov)) new ++
+       (if cj then [] else [(out, form, CVar (rename_temp nm out cj ov ov))])), []).
+Proof.
+  intros E O Out Sh. rewrite E, bind_ok_nil. rewrite Out, O. cbn [st0 t_ops]. rewrite app_nil_r, rev_involutive.
+  rewrite (rename_ops_shape nm out cj ov new Sh), bind_ok_nil. reflexivity.
+Qed.
+
+Definition tops_post (nm : names) (out : score) (form : opc) (tree : num) (ops : list oper2) : Prop :=
+  good_ops nm out ops /\
+  (forall f, interp_ops ops f out = op_sem form (f out) (teval f tree)) /\
+  (forall f s, s <> out -> (forall n, s <> temp_score nm n) -> interp_ops ops f s = f s).
+
+Section Top.
+  Variable nm : names.
+  Variable out : score.
+  Hypothesis Hout : forall n, out <> temp_score nm n.
+
+  (* renaming without injection: every temporary is a __tempN__ score *)
+  Lemma rho_plain ov vars :
+    (forall s n, In s vars -> s <> temp_score nm n) -> rho_ok (rename_temp nm out false ov) vars.
+  Proof.
+    intros Hv. split.
+    - intros k k' Hk Hk' H. unfold rename_temp in H. cbn [andb] in H. apply temp_score_inj in H. lia.
+    - intros s k Hs _. unfold rename_temp. cbn [andb]. now apply Hv.
+  Qed.
+
+  (* the general path: the value of the tree goes to a temporary, then `out <form>= temporary` *)
+  Lemma top_plain form c o l r t1 :
+    form <> PPow -> gtree t1 = true ->
+    (forall f, teval f t1 = teval f (NExpr c o l r)) ->
+    (forall s, In s (tvars t1) -> In s (tvars (NExpr c o l r))) ->
+    is_expr t1 = true ->
+    (forall s n, In s (tvars (NExpr c o l r)) -> s <> temp_score nm n) ->
+    exists ops,
+      ('(_, st) <- tto out false t1 true st0 ;;
+       match t_out st with
+       | None => crash "AssertionError"
+       | Some ov =>
+           ops2 <- rename_ops nm out false ov (rev (t_ops st)) ;;
+           ret (ops2 ++ [(out, form, CVar (rename_temp nm out false ov ov))])
+       end) = (Ok ops, []) /\ tops_post nm out form (NExpr c o l r) ops.
+  Proof.
+    intros Hform Hg Hte Htv Hex Hvars.
+    destruct (tto_general out false t1 Hg (or_introl eq_refl) true st0 Inv_st0)
+      as (res & st' & new & E & O & I & M & F & R & S & Sh).
+    destruct t1 as [| | |c1 o1 l1 r1]; try discriminate.
+    cbn [res_post] in R. destruct R as (ov & -> & Aov & Omax & _ & Out).
+    set (rho := rename_temp nm out false ov).
+    exists (map (ren_op rho) new ++ [(out, form, CVar (rho ov))]).
+    split; [exact (tto_tail nm out form false _ _ _ new ov E O Out Sh)|].
+    assert (Hrho : rho_ok rho (tvars (NExpr c1 o1 l1 r1))).
+    { apply rho_plain. intros s n Hs. apply Hvars. now apply Htv. }
+    assert (Htemp : forall k, exists n, rho k = temp_score nm n) by (intros k; unfold rho, rename_temp; cbn [andb]; eauto).
+    split; [|split].
+    - apply good_app; [now apply good_ren|].
+      split; [|split].
+      + intros x [<-|[]]. exact Hform.
+      + intros x [<-|[]]. exact Logic.I.
+      + intros x [<-|[]]. now left.
+    - intros f. destruct (S rho f Hrho) as [Fr Vl].
+      rewrite interp_snoc1, interp_one_same'. cbn [numval]. cbn [ren_num numval] in Vl. rewrite Vl, Hte. f_equal.
+      apply Fr. intros k _ _. destruct (Htemp k) as [n ->]. apply Hout.
+    - intros f s Hs Hn. destruct (S rho f Hrho) as [Fr _].
+      rewrite interp_snoc1, interp_one_other by (cbn; congruence).
+      apply Fr. intros k _ _. destruct (Htemp k) as [n ->]. apply Hn.
+  Qed.
+
+  (* the renaming used when the result is injected into the target *)
+  Lemma rho_inject_inj ov : (1 <= ov)%nat ->
+    forall k k', (1 <= k)%nat -> (1 <= k')%nat ->
+      rename_temp nm out true ov k = rename_temp nm out true ov k' -> k = k'.
+  Proof.
+    intros Hov k k' Hk Hk'. unfold rename_temp. cbn [andb].
     destruct (Nat.eqb_spec k ov) as [->|Nk], (Nat.eqb_spec k' ov) as [->|Nk']; intros H.
-    + reflexivity.
-    + exfalso. now apply (Hout _ H).
-    + exfalso. symmetry in H. now apply (Hout _ H).
-    + apply temp_score_inj in H.
+    - reflexivity.
+    - exfalso. now apply (Hout _ H).
+    - exfalso. symmetry in H. now apply (Hout _ H).
+    - apply temp_score_inj in H.
       destruct (Nat.ltb_spec ov k), (Nat.ltb_spec ov k'); lia.
-  - intros s k Hs Hk. destruct (Hvars s Hs) as [H1 H2]. unfold rename_temp. cbn [andb].
-    destruct (Nat.eqb k ov); [exact H1|apply H2].
+  Qed.
+
+  Theorem tto_top form tree :
+    gtree tree = true -> form <> PPow ->
+    (forall s n, In s (tvars tree) -> s <> temp_score nm n) ->
+    exists ops, tree_to_operations nm tree out form = (Ok ops, []) /\ tops_post nm out form tree ops.
+  Proof.
+    intros Hg Hform Hvars.
+    destruct tree as [z|s|i|c o l r]; try discriminate.
+    - (* a single variable *)
+      exists [(out, form, CVar s)]. split; [reflexivity|]. split; [|split].
+      + split; [|split].
+        * intros x [<-|[]]. exact Hform.
+        * intros x [<-|[]]. exact I.
+        * intros x [<-|[]]. now left.
+      + intros f. cbn [interp_ops fold_left]. rewrite interp_one_same'. reflexivity.
+      + intros f s' Hs _. cbn [interp_ops fold_left]. apply interp_one_other. cbn. congruence.
+    - rewrite tto_unfold.
+      destruct (opc_eqb form PEmpty) eqn:Ef.
+      2:{ apply (top_plain form c o l r (NExpr c o l r)); auto. }
+      assert (form = PEmpty) as -> by (destruct form; try discriminate; reflexivity).
+      unfold search_for_output.
+      destruct (count_out out (NExpr c o l r)) as [|[|n2]] eqn:Ec.
+      + (* the target does not occur: the result temporary is the target *)
+        destruct (tto_general out true _ Hg (or_intror Ec) true st0 Inv_st0)
+          as (res & st' & new & E & O & I & M & F & R & S & Sh).
+        cbn [res_post] in R. destruct R as (ov & -> & Aov & Omax & _ & Out).
+        set (rho := rename_temp nm out true ov).
+        exists (map (ren_op rho) new ++ []).
+        split; [exact (tto_tail nm out PEmpty true _ _ _ new ov E O Out Sh)|].
+        rewrite app_nil_r.
+        assert (Hov : (1 <= ov)%nat) by exact (avail_ge1 _ _ Inv_st0 Aov).
+        assert (Hrho_out : rho ov = out) by (unfold rho, rename_temp; cbn [andb]; now rewrite Nat.eqb_refl).
+        assert (Hrho : rho_ok rho (tvars (NExpr c o l r))).
+        { split; [now apply rho_inject_inj|]. intros s k Hs Hk. unfold rho, rename_temp. cbn [andb].
+          destruct (Nat.eqb k ov); [|now apply Hvars].
+          intros ->. now apply (count0_notin out _ Ec). }
+        split; [now apply good_ren|]. split.
+        * intros f. destruct (S rho f Hrho) as [_ Vl]. cbn [ren_num numval] in Vl. rewrite Hrho_out in Vl. exact Vl.
+        * intros f s Hs Hn. destruct (S rho f Hrho) as [Fr _]. apply Fr.
+          intros k _ _. unfold rho, rename_temp. cbn [andb]. destruct (Nat.eqb k ov); [exact Hs|apply Hn].
+      + (* the target occurs once *)
+        destruct (swap_path out (NExpr c o l r)) as [t'|] eqn:Esw.
+        2:{ apply (top_plain PEmpty c o l r (NExpr c o l r)); auto. }
+        destruct (swap_path_spine out _ Hg Ec t' Esw) as (Hsp & Hte & Htv).
+        destruct Hsp as [[Hx _]|Hsp]; [discriminate|].
+        destruct (tto_spine out t' Hsp true st0 Inv_st0)
+          as (k & st' & new & E & O & I & M & F & (Ak & Kmax & _ & Out) & S & Sh).
+        set (rho := rename_temp nm out true k).
+        exists (map (ren_op rho) new ++ []).
+        split; [exact (tto_tail nm out PEmpty true _ _ _ new k E O Out Sh)|].
+        rewrite app_nil_r.
+        assert (Hrs : rho_spine rho out k (tvars t')).
+        { split; [apply rho_inject_inj; exact (avail_ge1 _ _ Inv_st0 Ak)|split].
+          - intros s j Hs Hso Hj. unfold rho, rename_temp. cbn [andb].
+            destruct (Nat.eqb j k); [exact Hso|]. apply Hvars. now apply Htv.
+          - unfold rho, rename_temp. cbn [andb]. now rewrite Nat.eqb_refl. }
+        split; [now apply good_ren|]. split.
+        * intros f. destruct (S rho f Hrs) as [_ Vl]. rewrite Vl. apply Hte.
+        * intros f s Hs Hn. destruct (S rho f Hrs) as [Fr _]. apply Fr; [exact Hs|].
+          intros j _ _. unfold rho, rename_temp. cbn [andb]. destruct (Nat.eqb j k); [exact Hs|apply Hn].
+      + (* the target occurs several times *)
+        apply (top_plain PEmpty c o l r (NExpr c o l r)); auto.
+  Qed.
+End Top.
+
+(* ------------------------------------------------------------------ lowering of good operation lists *)
+Lemma lower_one_good nm x :
+  o_op x <> PPow -> const32 x -> exists c i, lower_one nm x = (Ok (c, i), []).
+Proof.
+  destruct x as [[v op] n]. unfold o_op, const32, o_num. cbn [fst snd]. intros Ho Hc. unfold lower_one.
+  destruct n as [z|s].
+  - pose proof Hc as [Hlo Hhi]. unfold INT_MIN, INT_MAX in Hlo, Hhi.
+    assert (Hf : (FLOAT_EXACT <? Z.abs z) = false) by (apply Z.ltb_ge; unfold FLOAT_EXACT; lia).
+    assert (Hb : in_int32b z = true) by now apply in_int32b_spec.
+    rewrite Hf. destruct op; try congruence.
+    + rewrite Hb. eexists _, _. reflexivity.
+    + destruct (z =? INT_MIN) eqn:Em; [eexists _, _; reflexivity|].
+      assert (amount_ok (Z.abs z) = true).
+      { apply Z.eqb_neq in Em. unfold amount_ok, INT_MIN, INT_MAX in *. apply andb_true_iff. split; apply Z.leb_le; lia. }
+      rewrite H. eexists _, _. reflexivity.
+    + destruct (z =? INT_MIN) eqn:Em; [eexists _, _; reflexivity|].
+      assert (amount_ok (Z.abs z) = true).
+      { apply Z.eqb_neq in Em. unfold amount_ok, INT_MIN, INT_MAX in *. apply andb_true_iff. split; apply Z.leb_le; lia. }
+      rewrite H. eexists _, _. reflexivity.
+    + rewrite Hb. eexists _, _. reflexivity.
+    + rewrite Hb. eexists _, _. reflexivity.
+    + rewrite Hb. eexists _, _. reflexivity.
+  - destruct (opc_eqb op PPow) eqn:E; [destruct op; try discriminate; congruence|]. eexists _, _. reflexivity.
 Qed.
 
-(* ------------------------------------------------------------------ lowering of constant-free lists *)
-Definition cmd_of (o : oper2) : cmd :=
-  match o_num o with CVar s => COp (o_var o) (sop_of_opc (o_op o)) s | CConst _ => CSay EmptyString end.
-Definition var_op (o : oper2) : bool := negb (is_cconst (o_num o)) && negb (opc_eqb (o_op o) PPow).
-
-Lemma lower_vars nm l : forallb var_op l = true -> lower nm l = (Ok (map cmd_of l, []), []).
+Lemma lower_good nm ops :
+  (forall x, In x ops -> o_op x <> PPow) -> consts32 ops -> exists cmds ints, lower nm ops = (Ok (cmds, ints), []).
 Proof.
-  induction l as [|[[v o] n] r IH]; cbn [forallb lower map]; [reflexivity|].
-  intros H. apply andb_true_iff in H. destruct H as [H Hr]. unfold var_op in H. cbn [o_num o_op fst snd] in H.
-  apply andb_true_iff in H. destruct H as [Hn Ho]. destruct n as [z|s]; [discriminate|].
-  unfold lower_one. apply negb_true_iff in Ho. rewrite Ho. unfold ret at 1. rewrite bind_ok_nil.
-  rewrite (IH Hr), bind_ok_nil. reflexivity.
+  induction ops as [|x r IH]; intros Ho Hc; [eexists _, _; reflexivity|].
+  apply consts32_cons in Hc. destruct Hc as [Hx Hr].
+  destruct (lower_one_good nm x (Ho x (or_introl eq_refl)) Hx) as (c & i & E1).
+  destruct (IH (fun y Hy => Ho y (or_intror Hy)) Hr) as (cs & is & E2).
+  cbn [lower]. rewrite E1, bind_ok_nil, E2, bind_ok_nil. eexists _, _. reflexivity.
 Qed.
-
-Lemma ren_var_op rho l : forallb op_shape l = true -> forallb var_op (map (ren_op rho) l) = true.
-Proof.
-  induction l as [|[[v o] n] r IH]; cbn [forallb map]; [reflexivity|].
-  intros H. apply andb_true_iff in H. destruct H as [H Hr]. rewrite (IH Hr), andb_true_r.
-  unfold op_shape in H. cbn [fst snd] in H.
-  apply andb_true_iff in H. destruct H as [H Ho]. apply andb_true_iff in H. destruct H as [_ Hn].
-  unfold var_op, ren_op. cbn [o_num o_op fst snd]. rewrite Ho, andb_true_r.
-  destruct n; try discriminate; reflexivity.
-Qed.
-Lemma var_op_const_free l : forallb var_op l = true -> const_free l = true.
-Proof.
-  unfold const_free. induction l as [|x r IH]; cbn [forallb]; [reflexivity|].
-  intros H. apply andb_true_iff in H. destruct H as [H Hr]. rewrite (IH Hr), andb_true_r.
-  unfold var_op in H. now apply andb_true_iff in H.
-Qed.
-Lemma wf_cmd_of l : forallb wf_cmd (map cmd_of l) = true.
-Proof. induction l as [|x r IH]; cbn [map forallb]; [reflexivity|]. rewrite IH, andb_true_r. unfold cmd_of. destruct (o_num x); reflexivity. Qed.
 
 (* ------------------------------------------------------------------ the theorem *)
-Lemma ctree_vars out t : ctree out t = true -> forall s, In s (tvars t) -> s <> out.
+Lemma render_nonempty e : arith e = true -> render e <> [].
 Proof.
-  induction t as [z|s0|i|c o l IHl r IHr]; cbn [ctree tvars]; try discriminate.
-  - intros H s [<-|[]] E. subst. now rewrite score_eqb_refl in H.
-  - intros H s Hs. apply andb_true_iff in H. destruct H as [H Hr]. apply andb_true_iff in H. destruct H as [_ Hl].
-    apply in_app_or in Hs. destruct Hs; [now apply IHl|now apply IHr].
+  destruct e as [v|z|e|e|o a b]; cbn [arith render]; try discriminate.
+  intros _. destruct (Nat.ltb (lvl a) (need_l o)); [discriminate|].
+  destruct (render a); discriminate.
 Qed.
 
-Lemma render_nonempty e : pn e = true -> render e <> [].
+Lemma form_op_sem form old v w : form_sem form old v = Some w -> op_sem form old v = w.
 Proof.
-  unfold pn. intros H. apply orb_true_iff in H. destruct H as [H|H].
-  - rewrite (render_atom e H). destruct e; try discriminate; cbn in H; discriminate.
-  - destruct e as [| | | |o a b]; try discriminate. cbn [pn_bin] in H.
-    apply andb_true_iff in H. destruct H as [H Hb]. apply andb_true_iff in H. destruct H as [_ Ha].
-    rewrite render_bin by assumption. destruct (render a); discriminate.
+  destruct form; cbn; intros H; try congruence.
+  - destruct (v =? 0); [discriminate|congruence].
+  - destruct (v =? 0); [discriminate|congruence].
 Qed.
 
-Lemma rename_temp_obj nm out inj ov k :
-  snd out <> int_name nm -> var_name nm <> int_name nm -> snd (rename_temp nm out inj ov k) <> int_name nm.
-Proof. intros H1 H2. unfold rename_temp. destruct (inj && Nat.eqb k ov); [exact H1|exact H2]. Qed.
-
-Lemma ren_ops_obj nm out inj ov l :
-  snd out <> int_name nm -> var_name nm <> int_name nm -> forallb op_shape l = true ->
-  forall o, In o (map (ren_op (rename_temp nm out inj ov)) l) -> snd (o_var o) <> int_name nm.
+Lemma int32_state_R32 st : int32_state st -> R32 (rd (sc st)).
 Proof.
-  intros H1 H2. induction l as [|[[v op] n] r IH]; cbn [forallb map]; intros Hs o Ho; [destruct Ho|].
-  apply andb_true_iff in Hs. destruct Hs as [Hx Hr]. destruct Ho as [<-|Ho]; [|now apply IH].
-  unfold op_shape in Hx. cbn [fst snd] in Hx. destruct v; try discriminate.
-  unfold ren_op, o_var. cbn [fst snd ren_var]. now apply rename_temp_obj.
+  intros H k. unfold rd. destruct (sc st k) as [v|] eqn:E; [exact (H k v E)|].
+  unfold in_int32, INT_MIN, INT_MAX. lia.
 Qed.
 
 Section Final.
   Variable ft : string -> option (list cmd).
   Variable env : nat -> state -> state.
 
-  Theorem partial_clean nm target e st :
+  (* from a correct operation list to the executed commands: optimize_const, lowering, MC.Sem *)
+  Lemma assemble nm out form (value : (score -> Z) -> Z) ops :
+    good_ops nm out ops ->
+    (forall f, interp_ops ops f out = op_sem form (f out) (value f)) ->
+    (forall f s, s <> out -> (forall n, s <> temp_score nm n) -> interp_ops ops f s = f s) ->
+    snd out <> int_name nm -> var_name nm <> int_name nm ->
+    exists cmds ints,
+      lower nm (optimize_const ops) = (Ok (cmds, ints), []) /\
+      forallb wf_cmd cmds && forallb wf_cmd (load_ints nm ints) = true /\
+      forall st all, int32_state st -> loaded nm st all -> (forall z, In z ints -> In z all) ->
+        exists st', exec_list ft env 1 cmds st = Some st' /\
+          rd (sc st') out = op_sem form (rd (sc st) out) (value (rd (sc st))) /\
+          (forall s, s <> out -> (forall n, s <> temp_score nm n) -> rd (sc st') s = rd (sc st) s) /\
+          stg st' = stg st /\ tr st' = tr st.
+  Proof.
+    intros (G1 & G2 & G3) Vout Vfr Hobj Hnames.
+    destruct (optimize_const_correct ops G2) as (Eq & C' & S').
+    assert (Hpow' : forall x, In x (optimize_const ops) -> o_op x <> PPow).
+    { intros y Hy. destruct (S' y Hy) as (x & Hx & Es). injection Es as _ Eo. rewrite <- Eo. now apply G1. }
+    assert (Hvar' : forall x, In x (optimize_const ops) -> snd (o_var x) <> int_name nm).
+    { intros y Hy. destruct (S' y Hy) as (x & Hx & Es). injection Es as Ev _. rewrite <- Ev.
+      destruct (G3 x Hx) as [->|[n ->]]; [exact Hobj|exact Hnames]. }
+    destruct (lower_good nm (optimize_const ops) Hpow' C') as (cmds & ints & El).
+    exists cmds, ints. split; [exact El|split].
+    - rewrite (lower_wf nm _ _ _ _ El). reflexivity.
+    - intros st all Hst Hl Hsub.
+      destruct (lower_correct_gen ft env nm _ cmds ints [] st all El Hvar' Hl Hsub) as (st' & E & P & _ & S & T).
+      exists st'. split; [exact E|]. pose proof (int32_state_R32 st Hst) as HR.
+      split; [|split; [|split; assumption]].
+      + fold (rdf st') (rdf st). rewrite P, (Eq _ HR). apply Vout.
+      + intros s Hs Hn. fold (rdf st') (rdf st). rewrite P, (Eq _ HR). now apply Vfr.
+  Qed.
+
+  Theorem partial_arith nm target form e :
     let out := score_of nm target in
-    clean nm out e = true ->
+    arith e = true -> form <> PPow ->
     (forall n, out <> temp_score nm n) ->
     (forall s n, In s (evars nm e) -> s <> temp_score nm n) ->
     snd out <> int_name nm -> var_name nm <> int_name nm ->
-    exists cmds,
-      compile_expr nm out PEmpty e = (Ok (cmds, []), []) /\
-      forallb wf_cmd cmds = true /\
-      exists st', exec_list ft env 1 cmds st = Some st' /\
-        (forall v, eval nm (rd (sc st)) e = Some v -> rd (sc st') out = v) /\
-        (forall s, s <> out -> (forall n, s <> temp_score nm n) -> rd (sc st') s = rd (sc st) s) /\
-        stg st' = stg st /\ tr st' = tr st.
+    exists cmds ints,
+      compile_expr nm out form e = (Ok (cmds, ints), []) /\
+      forallb wf_cmd cmds && forallb wf_cmd (load_ints nm ints) = true /\
+      forall st all, int32_state st -> loaded nm st all -> (forall z, In z ints -> In z all) ->
+        exists st', exec_list ft env 1 cmds st = Some st' /\
+          (forall v w, eval nm (rd (sc st)) e = Some v -> form_sem form (rd (sc st) out) v = Some w ->
+                       rd (sc st') out = w) /\
+          (forall s, s <> out -> (forall n, s <> temp_score nm n) -> rd (sc st') s = rd (sc st) s) /\
+          stg st' = stg st /\ tr st' = tr st.
   Proof.
-    intros out Hc Hout Hev Hobj Hnames.
-    pose proof (clean_pn nm out e Hc) as Hpn.
-    destruct (clean_facts nm out e Hc) as (Ct & Vt & Et).
-    assert (Hpipe : forall ops,
-               tree_to_operations nm (tree_of nm e) out PEmpty = (Ok ops, []) ->
-               forallb var_op ops = true ->
-               compile_expr nm out PEmpty e = (Ok (map cmd_of ops, []), [])).
-    { intros ops Hops Hvo. unfold compile_expr, compile_assign.
-      destruct (render e) as [|t0 tr0] eqn:Er; [exfalso; now apply (render_nonempty e Hpn)|]. rewrite <- Er.
-      unfold iop_premerge. cbn [opc_eqb]. rewrite bind_ret_l.
-      rewrite (ttt_pn nm e Hpn), bind_ok_nil. rewrite (ett_pn nm e Hpn), bind_ok_nil.
-      rewrite Hops, bind_ok_nil. rewrite (optimize_const_free ops (var_op_const_free ops Hvo)), bind_ok_nil.
-      now apply lower_vars. }
-    assert (Hrun : forall ops, forallb var_op ops = true ->
-               (forall o, In o ops -> snd (o_var o) <> int_name nm) ->
-               exists st', exec_list ft env 1 (map cmd_of ops) st = Some st' /\
-                 (forall k, rdf st' k = interp_ops ops (rdf st) k) /\ stg st' = stg st /\ tr st' = tr st).
-    { intros ops Hvo Hob.
-      destruct (lower_correct_gen ft env nm ops (map cmd_of ops) [] [] st [] (lower_vars nm ops Hvo) Hob)
-        as (st' & E & P & _ & S & T).
-      - intros z [].
-      - intros z [].
-      - exists st'. auto. }
-    destruct (tree_of nm e) as [z|s|i|c o l r] eqn:Etree; try (cbn [ctree] in Ct; discriminate).
-    - (* the expression is a single variable *)
-      set (ops := [(out, PEmpty, CVar s)]).
-      assert (Hvo : forallb var_op ops = true) by reflexivity.
-      exists (map cmd_of ops). split; [apply Hpipe; [reflexivity|exact Hvo]|]. split; [reflexivity|].
-      destruct (Hrun ops Hvo) as (st' & E & P & S & T).
-      { intros o [<-|[]]. exact Hobj. }
-      exists st'. split; [exact E|]. split; [|split; [|split; assumption]].
-      + intros v Hv. apply Et in Hv. cbn [teval] in Hv. fold (rdf st') (rdf st). rewrite P.
-        unfold ops, interp_ops. cbn [fold_left]. rewrite interp_one_same. cbn. exact Hv.
-      + intros s' Hs' _. fold (rdf st') (rdf st). rewrite P. unfold ops, interp_ops. cbn [fold_left].
-        apply interp_one_other. cbn. congruence.
-    - (* an operation *)
-      destruct (tto_top nm out c o l r Ct) as (new & ov & Hops & Hov & Sem & Sh).
-      set (rho := rename_temp nm out true ov) in *.
-      set (ops := map (ren_op rho) new) in *.
-      assert (Hvo : forallb var_op ops = true) by (apply ren_var_op; exact Sh).
-      exists (map cmd_of ops). split; [apply Hpipe; [exact Hops|exact Hvo]|]. split; [apply wf_cmd_of|].
-      destruct (Hrun ops Hvo) as (st' & E & P & S & T).
-      { apply ren_ops_obj; assumption. }
-      assert (Hrho : rho_ok rho (tvars (NExpr c o l r))).
-      { apply rename_temp_ok; [exact Hov|exact Hout|].
-        intros s Hs. split; [now apply (ctree_vars out _ Ct)|]. intros n. apply Hev. now apply Vt. }
-      destruct (Sem rho (rdf st) Hrho) as [Fr Vl].
-      assert (Hrho_out : rho ov = out).
-      { unfold rho, rename_temp. cbn [andb]. now rewrite Nat.eqb_refl. }
-      exists st'. split; [exact E|]. split; [|split; [|split; assumption]].
-      + intros v Hv. apply Et in Hv. fold (rdf st') (rdf st). rewrite P.
-        cbn [ren_num numval] in Vl. rewrite Hrho_out in Vl. fold ops in Vl. rewrite Vl. exact Hv.
-      + intros s Hs Hn. fold (rdf st') (rdf st). rewrite P. apply Fr.
-        intros k _. unfold rho, rename_temp. cbn [andb]. destruct (Nat.eqb k ov); [exact Hs|apply Hn].
+    intros out Ha Hform Hout Hev Hobj Hnames.
+    destruct (arith_tree nm e Ha) as (Hg & Htv & Hte).
+    destruct (tto_top nm out Hout form (tree_of nm e) Hg Hform) as (ops & Eops & G & Vout & Vfr).
+    { intros s n Hs. apply Hev. now apply Htv. }
+    destruct (assemble nm out form (fun f => teval f (tree_of nm e)) ops G Vout Vfr Hobj Hnames)
+      as (cmds & ints & El & Wf & Run).
+    exists cmds, ints. split; [|split; [exact Wf|]].
+    - unfold compile_expr, compile_assign.
+      destruct (render e) as [|t0 tr0] eqn:Er; [exfalso; now apply (render_nonempty e Ha)|]. rewrite <- Er.
+      rewrite (ttt_ok nm e Ha), bind_ok_nil. rewrite (parse_arith nm e Ha), bind_ok_nil.
+      rewrite Eops, bind_ok_nil. exact El.
+    - intros st all Hst Hl Hsub. destruct (Run st all Hst Hl Hsub) as (st' & E & Vo & Fr & S & T).
+      exists st'. split; [exact E|]. split; [|split; [exact Fr|split; assumption]].
+      intros v w Hv Hw. rewrite Vo, (Hte _ _ Hv). now apply form_op_sem.
   Qed.
+
 End Final.
